@@ -259,12 +259,41 @@ class NPShim:
             dt = real_np.promote_types(dt, x.dtype)
         return A([c for x in xs for c in x.cells], dt, (len(xs), n))
 
-    def cumsum(self, x):
+    def cumsum(self, x, axis=None, dtype=None, out=None):
+        if out is not None:
+            raise Unsupported("np.cumsum(out=...)")
+        if isinstance(x, (list, tuple)) and x and all(isinstance(y, A) and y.ndim == 1 for y in x):
+            n = len(x[0])
+            if any(len(y) != n for y in x):
+                raise ValueError("setting an array element with a sequence (ragged)")
+            dt = real_np.result_type(*[y.dtype for y in x])
+            x = A([c for y in x for c in y.cells], dt, (len(x), n))
         if isinstance(x, A):
-            return x.cumsum()
+            if dtype is not None:
+                x = x.astype(dtype)
+            if x.ndim == 1:
+                if axis not in (None, 0, -1):
+                    raise ValueError("axis out of bounds")
+                return x.cumsum()
+            if x.ndim == 2:
+                r, c = x.shape
+                cells = x.cells
+                if axis is None:
+                    return A(list(cells), x.dtype).cumsum()
+                rows = [A(cells[i * c:(i + 1) * c], x.dtype) for i in range(r)]
+                if axis in (0, -2):
+                    acc = [rows[0]] if r else []
+                    for rr in rows[1:]:
+                        acc.append(acc[-1] + rr)
+                    outrows = acc
+                else:
+                    outrows = [rr.cumsum() for rr in rows]
+                dt = outrows[0].dtype if outrows else x.dtype
+                return A([cc for rr in outrows for cc in rr.cells], dt, (r, c))
+            raise Unsupported("np.cumsum on > 2 dimensions")
         if isinstance(x, (list, tuple)) and any(is_sym(y) for y in x):
             return A(list(x), "int64").cumsum()
-        return real_np.cumsum(x)
+        return real_np.cumsum(x, axis=axis, dtype=dtype)
 
     def cumprod(self, x):
         if _contains_modelled(x):
